@@ -27,7 +27,7 @@ def singleLine (name key v : Str) (n : Nat) : Str := padded [(keyTok name key, n
 theorem singleLine_facts (name key v : Str) (n : Nat) (hn : NameOk name) (hk : NameOk key)
     (hv : SingleLine v ∧ ¬ BothQuotes v) :
     let L := singleLine name key v n
-    strip L = L ∧ '\n' ∉ L ∧ isEmptyLine L = false ∧ L.head? = some '_' ∧
+    strip L = L ∧ NoBreak L ∧ isEmptyLine L = false ∧ L.head? = some '_' ∧
     parseCategoryName L = some name ∧ isLoopStart L = false ∧
     splitOneLine L = .ok [keyTok name key, v] := by
   intro L
@@ -39,18 +39,13 @@ theorem singleLine_facts (name key v : Str) (n : Nat) (hn : NameOk name) (hk : N
   have hLeq : L = ('_' :: name) ++ '.' :: (key ++ List.replicate (n + 1) ' ' ++ escape v) := by
     simp [L, singleLine, padded, keyTok]
   have hhead : L.head? = some '_' := by rw [hLeq]; rfl
-  have hnl : '\n' ∉ L := by
-    intro hm
-    rcases mem_padded _ _ hm with e | ⟨tn, htn, hc⟩
-    · simp at e
-    · exact rowRel_no_nl _ _ hrel (by
-        intro x hx
-        simp only [List.mem_cons, List.mem_nil_iff, or_false] at hx
-        rcases hx with rfl | rfl
-        · intro hm'
-          have := keyTok_nows name key hn hk _ hm'
-          simp [isWs_nl] at this
-        · exact singleLine_no_nl _ hv.1) tn htn hc
+  have hnl : NoBreak L :=
+    noBreak_padded _ (rowRel_no_nl _ _ hrel (by
+      intro x hx
+      simp only [List.mem_cons, List.mem_nil_iff, or_false] at hx
+      rcases hx with rfl | rfl
+      · exact noBreak_of_nows _ (keyTok_nows name key hn hk)
+      · exact hv.1))
   have hsplit : splitOneLine L = .ok [keyTok name key, v] :=
     splitOneLine_padded _ _ hrel (by simp) (by rw [show padded _ = L from rfl, hhead]; simp)
   have hne : L ≠ [] := by rw [hLeq]; simp
@@ -154,11 +149,15 @@ theorem table_single (name : Str) (kvs : List (Str × Str))
     have hmm : ((kv0 :: rest).map (fun kv => (kv.1, [kv.2]))).map (fun kv => (kv.1, kv.2.headD [])) = kv0 :: rest := by
       simp [List.map_map, Function.comp_def]
     rw [← hser]
-    simp only [List.map_cons] at hany hmm ⊢
-    simp only [categorySerialize, List.length_singleton, hany, Bool.false_eq_true, if_false]
+    have hlab := labels_ok name (((kv0 :: rest).map (fun kv => (kv.1, [kv.2]))).map (·.1)) hname (by
+      intro k hk
+      simp only [List.mem_map] at hk
+      obtain ⟨_, ⟨kv, hkv, rfl⟩, rfl⟩ := hk
+      exact hkeys kv hkv)
+    simp only [List.map_cons] at hany hmm hlab ⊢
+    simp only [categorySerialize, List.map_cons, List.length_singleton, hlab, hany, Bool.false_eq_true, if_false]
     simp only [show ((1 : Nat) == 0) = false from rfl, show ((1 : Nat) == 1) = true from rfl,
       Bool.false_eq_true, if_false, if_true]
-    simp only [List.map_cons]
     rw [hmm]
   refine ⟨W, hcs, ?_⟩
   -- the reader
@@ -169,7 +168,7 @@ theorem table_single (name : Str) (kvs : List (Str × Str))
     simp only [W, List.mem_map] at hw
     obtain ⟨it, hit, rfl⟩ := hw
     exact (hfacts it hit).1
-  have hWnl : ∀ w ∈ W, '\n' ∉ w := by
+  have hWnl : ∀ w ∈ W, NoBreak w := by
     intro w hw
     simp only [W, List.mem_map] at hw
     obtain ⟨it, hit, rfl⟩ := hw
